@@ -19,7 +19,7 @@ import os
 import random
 import shutil
 
-from .. import cbi, core, runner, scen
+from .. import cbi, core, runner, scen, trace_preproc
 from . import C04, C10
 
 
@@ -98,7 +98,11 @@ def replay_chunk(args):
                 continue
             if al["links"]:
                 stats["nontrivial"] += 1
-            st, cb, logs, err = cbi.run_find(m.root, conf)
+            if si % 3 == 0:
+                st, cb, logs, err, trs = cbi.run_find_traced(m.root, conf, base, f"c15:{si}")
+                stats.setdefault("traces", []).extend(trs)
+            else:
+                st, cb, logs, err = cbi.run_find(m.root, conf)
             if err is not None:
                 fails.append(dict(layer="G", tags=sorted(tags | {"exception"}), symptom=f"exception:{err[0]}",
                                   detail=f"{err[1]}\n{err[2]}", case={"scen": sc, "alias": al}))
@@ -219,14 +223,17 @@ def run(ctx):
     ctx.cov["pairs"] = len(pairs)
     ctx.sample({"links": aliases[len(aliases) // 2]["links"], "spellings_of_m1": aliases[len(aliases) // 2]["spell"]["m1"][:5]})
     work = ctx.scratch()
+    loaded = []
     jobs = [(c, ctx.seed, work) for c in runner.chunks(pairs, runner.NCPU * 2)]
     for lst in runner.pmap(_jobs, jobs, chunk=1):
         for fails, stats in lst:
             ctx.cov["evaluations"] += stats["evals"]
             ctx.cov["distinct_nontrivial"] += stats["nontrivial"]
             ctx.cov["skipped"] = ctx.cov.get("skipped", 0) + stats["skipped"]
+            loaded.extend(stats.get("traces", []))
             for f in fails:
                 ctx.fail(f["layer"], f["tags"], f["symptom"], f["detail"], f["case"])
+    trace_preproc.validate(ctx, [], tag="C15", loaded=loaded)
 
 
 def replay(ctx, path):
